@@ -36,7 +36,7 @@ func (check) Assumptions() []string {
 	return []string{
 		"nested policies, dictionaries: the subtree of an option is merged as if its policy were the global one also where it lies below a node merged under replace (global ReplaceValues or an enclosing FieldReplaceValues): the replace node takes B's named settings (a setting B does not name is dropped, also one on an option path), but a child at which an option with another policy starts is merged with A's old child under that policy, and a child on the way to such a subtree is B's child except for what is found further down that way (walk.go)",
 		"nested policies, lists: elements meet only where the list is merged by index; below a replaced, appended or prepended list no option has two values to merge (positions shift), nothing is claimed there",
-		"destinations holding references: only with a global policy other than ReplaceValues (it drops the referenced top-level settings, what is left may refer to nothing); sources holding references are C10's matter; strings containing '$' are not generated in those cases",
+		"destinations holding references: under a global ReplaceValues B names the referenced top-level settings as well, with the value they have (else the replace drops them and what is left refers to nothing), and no ** option is in the call (it may address settings inside the referenced values); sources holding references are C10's matter; strings containing '$' are not generated in those cases",
 		"the statement names one wildcard, '**' (any number of path components, also none): patterns with '**' in front, in the middle or twice are generated alone and in combination; a trailing '**' is not generated (nothing says whether a.** differs from a)",
 		"the single-level wildcard '*' is not named by the statement: *.name and name.*.name are generated only alone (they behave like the documentation's examples); what '*' means next to other options, next to position options, below '**' or twice in one call is not claimed",
 		"combinations are generated only where the statement settles them: where subtrees nest the innermost decides; which of two options wins whose subtrees START at the same node is open, so two options never name the same path and a ** pattern is combined with another path only if their last components differ",
@@ -684,16 +684,40 @@ func (check) Run(seed int64, tier string, idx int, verbose bool) harness.Result 
 		if aRef == nil {
 			return
 		}
-		if globals[gl].p == model.PReplace {
-			res.Ev("ref_calls_skipped_global_replace", 1)
-			return
+		yRef := y
+		underReplace := globals[gl].p == model.PReplace
+		if underReplace {
+			// a global replace keeps only the top-level settings B names: B
+			// names the referenced settings too, with the value they have.
+			// Not with a ** option: it may address settings inside the
+			// referenced values, which then legitimately change.
+			// Nor where B names nothing at the top level: then nothing is
+			// replaced there, and naming the referenced settings would change that.
+			if hasDoubleStar(fs) || y.HasA || len(y.A) > 0 || len(y.D) == 0 {
+				res.Ev("ref_calls_skipped_global_replace", 1)
+				return
+			}
+			yRef = withReferenced(y, sites)
+			res.Ev("ref_calls_under_global_replace", 1)
+			decisive := false
+			for _, st := range sites {
+				for _, f := range fs {
+					if fieldPols[f.h].p != model.PReplace && related(st.path, f.path) && nodeAt(y, st.path).IsSub() {
+						decisive = true
+					}
+				}
+			}
+			if decisive && mergeModel(a, y, strictPolicy(model.PReplace, fs)).CanonTop() != mergeModel(a, y, model.Global(model.PReplace)).CanonTop() {
+				res.Ev("ref_calls_under_global_replace_where_a_merging_option_meets_a_reference", 1)
+			}
+			d += " [B also names the referenced settings]"
 		}
 		d = fmt.Sprintf("%s; destination with references %v: %s", d, sites, aRef)
 		run := func(fieldOpts []ucfg.Option) (got string, ok bool) {
 			panicked, pv, where := harness.Safe(func() {
 				var problem string
 				var err error
-				got, problem, err = mergeLibRef(aRef, y, sites, mkOpts(globals[gl].opts, fieldOpts))
+				got, problem, err = mergeLibRef(aRef, yRef, sites, mkOpts(globals[gl].opts, fieldOpts))
 				res.Eval(4)
 				if err != nil {
 					res.Violate("error-with-destination-reference", "%v; %s", err, d)
@@ -723,6 +747,10 @@ func (check) Run(seed int64, tier string, idx int, verbose bool) harness.Result 
 		p0, ok2 := lib(a, y, mkOpts(globals[gl].opts, nil), d)
 		if ok1 && ok2 && r0 != p0 {
 			res.Violate("destination-reference-changes-merge-result", "merging onto a setting that refers to a value gives another result than merging onto that value, even without per-field options: with references %s, literal %s; %s", r0, p0, d)
+			return
+		}
+		if underReplace {
+			res.Violate("destination-reference-not-merged-by-field-policy-under-global-replace", "under a global ReplaceValues a per-field option with a merging policy merges a setting that refers to a value differently from a setting holding that value: with references %s, literal %s; %s", gotRef, gotPlain, d)
 			return
 		}
 		res.Violate("destination-reference-changes-field-policy-result", "with per-field options, merging onto a setting that refers to a value gives another result than merging onto that value (the options name the path of the referring setting): with references %s, literal %s; %s", gotRef, gotPlain, d)
